@@ -236,6 +236,13 @@ func (g *G) GenProgram(maxChain, maxEvents, maxOps int) *Program {
 		case c == 7:
 			ev.Entry = "WithLevel"
 			ev.Level = zerolog.Level(r.Intn(256) - 128)
+		case c == 8 && r.Chance(1, 2):
+			// the fmt-style entry points and io.Writer use: no fields, message only
+			ev.Entry = []string{"Print", "Printf", "Println", "WriteIO", "WriteIO-nl"}[r.Intn(5)]
+			ev.Level = zerolog.DebugLevel
+			if strings.HasPrefix(ev.Entry, "WriteIO") {
+				ev.Level = zerolog.NoLevel
+			}
 		default:
 			ev.Entry = "WithLevel"
 			ev.Level = zerolog.Level(r.Intn(9) - 1)
@@ -254,6 +261,10 @@ func (g *G) GenProgram(maxChain, maxEvents, maxOps int) *Program {
 			}
 		}
 		nops := r.Intn(maxOps + 1)
+		plain := strings.HasPrefix(ev.Entry, "Print") || strings.HasPrefix(ev.Entry, "WriteIO")
+		if plain {
+			nops = 0
+		}
 		for j := 0; j < nops; j++ {
 			op := g.keyedOp(FeEvent, 0, &evStack)
 			ev.Ops = append(ev.Ops, op)
@@ -270,7 +281,23 @@ func (g *G) GenProgram(maxChain, maxEvents, maxOps int) *Program {
 		if ev.Fin == "Send" {
 			finalMsg = ""
 		}
-		if r.Chance(1, 10) {
+		if plain {
+			ev.Fin = "Msg"
+			ev.Msg = g.V.String()
+			finalMsg = ev.Msg
+			switch ev.Entry {
+			case "Println":
+				finalMsg = ev.Msg + "\n"
+			case "WriteIO":
+				if strings.HasSuffix(ev.Msg, "\n") {
+					finalMsg = ev.Msg[:len(ev.Msg)-1]
+				}
+			case "WriteIO-nl":
+				// Logger.Write trims exactly one trailing newline (the one the standard log package adds)
+				finalMsg = ev.Msg
+			}
+		}
+		if r.Chance(1, 10) && !plain {
 			ev.EvCtx = fmt.Sprintf("evctx%d", i)
 		}
 		// expectation
@@ -502,6 +529,11 @@ func (x *Exec) Run(p *Program) (res Result) {
 	for i := range p.Events {
 		ev := &p.Events[i]
 		w0, h0 := len(rec.W), len(hookLog)
+		if runPlain(&l, ev) {
+			res.Writes = append(res.Writes, append([]Write(nil), rec.W[w0:]...))
+			res.Hooks = append(res.Hooks, append([]HookCall(nil), hookLog[h0:]...))
+			continue
+		}
 		e := StartEvent(&l, ev)
 		if ev.EvCtx != "" {
 			e = e.Ctx(context.WithValue(context.Background(), ctxKey{}, ev.EvCtx))
@@ -552,4 +584,23 @@ func (p *Program) Describe() string {
 		sb.WriteString(fmt.Sprintf(".%s(%s)", ev.Fin, descVal(ev.Msg)))
 	}
 	return sb.String()
+}
+
+// runPlain executes the fmt-style / io.Writer entry points; it reports whether ev was one of them.
+func runPlain(l *zerolog.Logger, ev *EventSpec) bool {
+	switch ev.Entry {
+	case "Print":
+		l.Print(ev.Msg)
+	case "Printf":
+		l.Printf("%s", ev.Msg)
+	case "Println":
+		l.Println(ev.Msg)
+	case "WriteIO":
+		l.Write([]byte(ev.Msg))
+	case "WriteIO-nl":
+		l.Write([]byte(ev.Msg + "\n"))
+	default:
+		return false
+	}
+	return true
 }
